@@ -12,13 +12,6 @@ package json
 // (string lexer state); they are advanced by the generator at every append by
 // running the byte-level JSON automaton over the appended bytes.
 
-//@ spec objbuf(b bytes) bool = len(b) >= 1 && lex(b) == 0 && (mode(b) == OBJ_FIRST || mode(b) == OBJ_NEXT) && ((mode(b) == OBJ_FIRST) == (b[len(b)-1] == '{'))
-//@ spec valueok(b bytes) bool = lex(b) == 0 && valuepos(mode(b))
-//@ spec emitsvalue(res bytes, dst bytes) bool = lex(res) == 0 && mode(res) == aftervalue(mode(dst)) && stk(res) == stk(dst) && len(res) > len(dst) && res[len(res)-1] != '{' && prefix(res, dst)
-//@ spec wholevalue(b bytes) bool = lex(b) == 0 && mode(b) == DONE && stk(b) == 1 && len(b) >= 1 && b[len(b)-1] != '{'
-//@ spec cleanlayout(layout string) bool
-//@ spec instring(res bytes, dst bytes) bool = lex(res) == 1 && mode(res) == mode(dst) && stk(res) == stk(dst) && prefix(res, dst) && len(res) >= len(dst)
-
 //@ global forall k in 0..256: noEscapeTable[k] == (k >= 32 && k <= 126 && k != 92 && k != 34)
 
 //@ config JSONMarshalFunc != nil
